@@ -132,6 +132,15 @@ class Bus:
             self.rx_exc.append((self.sim.now, node.name, repr(e)))
 
 
+def order_fingerprint(frames, limit=4000):
+    """hash of the bus order (who sent which kind of frame, in which order) -- two cases with the same fingerprint saw the same interleaving"""
+    import hashlib
+    h = hashlib.blake2b(digest_size=8)
+    for f in frames[:limit]:
+        h.update(('%s/%02X/%s;' % (f.src, (f.can_id >> 16) & 0xFF, f.data[:1].hex())).encode())
+    return h.hexdigest()
+
+
 class StackNode:
     """a real ElectronicControlUnit on the simulated bus"""
 
